@@ -9,8 +9,20 @@
   `pypyr/pipedef.py` (`PipelineInfo` / `PipelineFileInfo` defaults) and the sequential
   behaviour of `pypyr.moduleloader.add_sys_path` (its interleavings are in `CacheTS`).
 
-  Domain: absolute, normalised, symlink-free directories (a path is its list of components);
-  names without `.`/`..`/empty segments. Everything else is rejected by the driver.
+  Domain: absolute directories (a path is its list of components). The first layer
+  (`getPipelinePath` … `runChain`, `request`) is the look-up on a normalised, symlink-free tree,
+  where `Path.resolve()` is the identity. The `…R` layer below (`getPipelinePathR`,
+  `getPipelineDefinitionR`, `loadOneR`, `runChainR`) adds what the code does on any tree:
+  `parent.resolve()` before the parent is looked at, `path.resolve()` on what `find_pipeline` /
+  the absolute branch return (`Fs.realpath`: symlinks followed, `..` folded — so a pipeline file
+  reached through a symlink hands its children the TARGET's directory, and that directory goes on
+  `sys.path`), the `py_dir` of a `Pipeline` (`add_sys_path(py_dir)` before the look-up: `--dir`,
+  `pipelinerunner.run(py_dir=)`, pype's `pyDir`), and which file an `import m` of a step binds
+  (`resolveModule`: `sys.modules` first, then the first `sys.path` entry that has `m`).
+  Names may contain `..` segments (the file-system predicates walk them like the OS); names with
+  `.` or empty segments, relative `parent` / `py_dir` strings (resolved by the code against the
+  OS cwd of the moment, not `config.cwd`) and a cwd / built-in directory that is itself reached
+  through a symlink (`config.cwd = Path.cwd()` is already real) are rejected by the driver.
 -/
 import PypyrModel.Val
 
@@ -25,6 +37,9 @@ structure Fs where
   builtin : Path
   isFile : Path → Bool
   dirExists : Path → Bool
+  /-- `Path.resolve()`: symlinks followed, `..` folded; the identity on a normalised symlink-free
+      tree (the default, and what the first layer of this file assumes) -/
+  realpath : Path → Path := id
 
 /-- `pipeline_name`, already split on `/`; `abs` iff `Path(f'{name}.yaml').is_absolute()`. -/
 inductive Name where
@@ -166,6 +181,9 @@ structure Hop where
   nameStr : String
   name : Name
   pype : PypeIn
+  /-- `py_dir` of the `Pipeline` object of this hop: `pipelinerunner.run(py_dir=)` / `--dir` for the
+      root, `pype.pyDir` for a child (not inherited). Read by the `…R` layer only. -/
+  pyDir : Option Path := none
 
 /-- `Pipeline.load_and_run_pipeline`'s loading part for one pipeline. `custom l` tells the cascade
     flags a custom loader module declares (`none` = no such loader: outside the domain). -/
@@ -202,6 +220,143 @@ def runChain (fs : Fs) (custom : String → Option (Bool × Bool)) :
       else
         let (rest, err, st'') := runChain fs custom st' (some (infoOf ld)) rootLoader hs
         (ld :: rest, err, st'')
+
+/-! ### the `…R` layer: `Path.resolve()`, `py_dir`, imports
+
+  `find_pipeline`: `return path.resolve()`; absolute branch: `return abs_candidate.resolve()`;
+  `get_pipeline_path`: `parent = parent.resolve()` before `parent.exists()` /
+  `parent.samefile(config.cwd)` (same file ⇔ same real path; `config.cwd` is real). The candidates
+  themselves are NOT resolved before `is_file()`: `fs.isFile` is asked about `dir/name.yaml` as
+  written (the OS follows links and `..` while answering), and the error text shows the resolved
+  parent. -/
+
+/-- `get_pipeline_path(pipeline_name, parent)` on any tree -/
+def getPipelinePathR (fs : Fs) (name : Name) (parent : Option Path) : Except String Path :=
+  match getPipelinePath fs name (parent.map fs.realpath) with
+  | .ok p => .ok (fs.realpath p)
+  | .error e => .error e
+
+/-- `get_pipeline_definition` on any tree: `file_cache` is keyed by `str` of the RESOLVED path and
+    `load_pipeline_from_file` puts the resolved file's directory on `sys.path`. -/
+def getPipelineDefinitionR (fs : Fs) (st : LoadState) (name : Name) (parent : Option Path) :
+    Except String Path × LoadState :=
+  match getPipelinePathR fs name parent with
+  | .error e => (.error e, st)
+  | .ok p =>
+    if p ∈ st.fileCache then (.ok p, st)
+    else (.ok p, addSysPath fs { st with fileCache := p :: st.fileCache } (dirOf p))
+
+/-- `importlib.import_module(m)` as far as "which file": a name already in `sys.modules`
+    (`loaded`: name ↦ directory it was first imported from) is served from there whatever
+    `sys.path` says now; otherwise the FIRST entry of `sys.path` that holds a top-level `m`
+    (`has d m`: `d/m.py` or `d/m/__init__.py` exists). `add_sys_path` APPENDS, so every entry that
+    was there before (the interpreter's own, the cwd under `--dir`, earlier pipelines'
+    directories) is asked first. -/
+def resolveModule (sysPath : List Path) (has : Path → String → Bool) (loaded : List (String × Path))
+    (m : String) : Option Path :=
+  match loaded.lookup m with
+  | some d => some d
+  | none => sysPath.find? (fun d => has d m)
+
+/-- the import, with its effect on `sys.modules` (a failed import binds nothing) -/
+def importModule (sysPath : List Path) (has : Path → String → Bool) (loaded : List (String × Path))
+    (m : String) : Option Path × List (String × Path) :=
+  match resolveModule sysPath has loaded m with
+  | some d => (some d, if (loaded.lookup m).isSome then loaded else (m, d) :: loaded)
+  | none => (none, loaded)
+
+/-- the imports of one pipeline, in order; stops at the first module that is not found -/
+def importAll (sysPath : List Path) (has : Path → String → Bool) :
+    List (String × Path) → List String → List (String × Option Path) × List (String × Path)
+  | loaded, [] => ([], loaded)
+  | loaded, m :: ms =>
+    match importModule sysPath has loaded m with
+    | (some d, loaded') =>
+      let r := importAll sysPath has loaded' ms
+      ((m, some d) :: r.1, r.2)
+    | (none, loaded') => ([(m, none)], loaded')
+
+/-- what persists in the process between loads: the loader state and `sys.modules` -/
+structure Proc where
+  load : LoadState
+  modules : List (String × Path) := []
+  deriving Repr
+
+/-- `if self.py_dir: add_sys_path(self.py_dir)` -/
+def addPyDir (fs : Fs) (st : LoadState) : Option Path → LoadState
+  | some d => addSysPath fs st d
+  | none => st
+
+/-- `Pipeline.load_and_run_pipeline`'s loading part on any tree: `add_sys_path(self.py_dir)` first
+    (also ahead of a custom loader), then the loader. -/
+def loadOneR (fs : Fs) (custom : String → Option (Bool × Bool)) (st : LoadState)
+    (loader : Option String) (h : Hop) (parent : Option Path) :
+    Except String Loaded × LoadState :=
+  let st := addPyDir fs st h.pyDir
+  let l := effLoader loader
+  if l = fileLoader then
+    match getPipelineDefinitionR fs st h.name parent with
+    | (.ok p, st') => (.ok (.file p), st')
+    | (.error e, st') => (.error e, st')
+  else match custom l with
+    | some (pc, lc) => (.ok (.custom l h.nameStr parent pc lc), st)
+    | none => (.error ("no such loader " ++ l), st)
+
+def modNotFoundMsg (m : String) : String := "module not found: " ++ m
+
+/-- the loader and the parent a hop is looked up with: the root gets the runner's loader and no
+    parent, a pype child what `get_arguments` derives from its caller's `PipelineInfo` -/
+def hopArgs (rootLoader : Option String) (caller : Option Info) (h : Hop) : Option String × Option Path :=
+  match caller with
+  | none => (rootLoader, none)
+  | some info => (childLoader h.pype info, childParent h.pype info)
+
+/-- a root pipeline followed by pype children on any tree, each pipeline importing its step
+    modules (`importsOf`: the modules the loaded pipeline's steps import BEFORE its pype step runs,
+    in order — a matter of the pipeline's content; with `sys.path` as it is right after ITS load)
+    before it calls the next. Returns what
+    was loaded with the directory every import was bound from, the error that ended the chain,
+    the process state. -/
+def runChainR (fs : Fs) (custom : String → Option (Bool × Bool)) (has : Path → String → Bool)
+    (importsOf : Loaded → List String) :
+    Proc → Option Info → Option String → List Hop →
+    List (Loaded × List (String × Option Path)) × Option String × Proc
+  | st, _, _, [] => ([], none, st)
+  | st, caller, rootLoader, h :: hs =>
+    match loadOneR fs custom st.load (hopArgs rootLoader caller h).1 h (hopArgs rootLoader caller h).2 with
+    | (.error e, ld') => ([], some e, { st with load := ld' })
+    | (.ok ld, ld') =>
+      if endsChain fs ld then ([(ld, [])], none, { st with load := ld' })
+      else
+        let imp := importAll ld'.sysPath has st.modules (importsOf ld)
+        let st' : Proc := { load := ld', modules := imp.2 }
+        match imp.1.find? (fun x => x.2.isNone) with
+        | some x => ([(ld, imp.1)], some (modNotFoundMsg x.1), st')
+        | none =>
+          let r := runChainR fs custom has importsOf st' (some (infoOf ld)) rootLoader hs
+          ((ld, imp.1) :: r.1, r.2.1, r.2.2)
+
+/-! ### a relative `parent`
+
+  `get_pipeline_path`: `parent = Path(parent).resolve()` — a relative parent is read against the OS
+  working directory OF THE MOMENT (`os.getcwd()`), whereas the cwd candidates come from
+  `config.cwd`, fixed when `pypyr.config` was imported. The two differ once the process has
+  changed directory. (A relative `py_dir` goes to `sys.path` as the relative string it is: outside
+  the domain.) -/
+
+/-- a `parent` as the caller wrote it -/
+inductive PathArg where
+  | abs (p : Path)
+  | rel (parts : List String)
+  deriving Repr
+
+def PathArg.against (osCwd : Path) : PathArg → Path
+  | .abs p => p
+  | .rel parts => osCwd ++ parts
+
+/-- `get_pipeline_path` with the parent as written and the OS working directory at the call -/
+def getPipelinePathA (fs : Fs) (osCwd : Path) (name : Name) (parent : Option PathArg) : Except String Path :=
+  getPipelinePathR fs name (parent.map (·.against osCwd))
 
 /-! ### sequences of look-ups in one process: the warm pipeline cache above `get_pipeline_path`
 
